@@ -314,6 +314,10 @@ func oracleFor(op *Sexp, res string) []string {
 		if res != want {
 			bad("target after Unmarshal breaks the merge rules: got %s want %s", res, want)
 		}
+	case "deschost", "jhost", "jhostdesc":
+		if res != "err" && !strings.HasPrefix(res, "ok") && res != "builderr" {
+			bad("decode outcome %q", res)
+		}
 	case "dec":
 		if res != "err" && !strings.HasPrefix(res, "ok ") && res != "builderr" {
 			bad("decode outcome %q", res)
